@@ -4,6 +4,7 @@ open Driver
 
 /-- ops:
   udp.oob <hex>   -> ok <sec> <nsec> | err unexpected-data | err not-found | panic …
+  net.* / cli.* … -> ok alive   (socket-level liveness, see harness/cmd/c08net)
 -/
 def step (_ : Unit) (toks : List String) : Unit × String :=
   match toks with
@@ -18,6 +19,10 @@ def step (_ : Unit) (toks : List String) : Unit × String :=
       | .panicExplicit => ((), "panic explicit:unexpected_timestamping_behavior")
       | .fuel => ((), "model-out-of-fuel")
     | none => ((), "bad-op")
+  | op :: _ :: _ =>
+    -- socket-level ops (harness/cmd/c08net): the model's claim for EVERY input is that the
+    -- process that received it is still alive and serving afterwards
+    if op.startsWith "net." || op.startsWith "cli." then ((), "ok alive") else ((), "bad-op")
   | _ => ((), "bad-op")
 
 def main : IO Unit := run () step
